@@ -36,6 +36,18 @@ def normalise(raw_events):
         taken = set()
         local2b = {e["local"]: e["b"] for e in rnd if e["ev"] == "BackendConn"}
         prepmap = {}
+        keylist = {}
+        pre_ord = {}  # scenario clients forward nothing before ScenarioStart
+
+        def byord(e):
+            """request a hook event refers to: the ord-th request submitted on (client, stream) in this round"""
+            lst = keylist.get((e["caddr"], e["stream"]), [])
+            o = e.get("ord", 0)
+            # requests created before ScenarioStart (set-up traffic) also consumed ordinals on their pair
+            o -= pre_ord.get((e["caddr"], e["stream"]), 0)
+            if 1 <= o <= len(lst):
+                return lst[o - 1]
+            return None
         since_gc = 0
         out.append({"ev": "Reset"})
         for e in rnd:
@@ -82,6 +94,7 @@ def normalise(raw_events):
                 r = nreq
                 tok2r[e["t"]] = r
                 key2r[(e["caddr"], e["stream"])] = r
+                keylist.setdefault((e["caddr"], e["stream"]), []).append(r)
                 reqinfo[r] = {"scenario": m.group(4), "class": m.group(1), "op": m.group(3), "tok": e["t"],
                               "client": e["c"], "stream": e["stream"]}
                 out.append({"ev": "Submit", "r": r, "c": e["c"], "s": e["stream"], "idem": m.group(1) == "idem",
@@ -118,17 +131,17 @@ def normalise(raw_events):
             elif ev in ("ClientClose", "ClientClosed"):
                 out.append({"ev": "ClientClose", "c": e["c"]})
             elif ev == "H.sendfail":
-                r = key2r.get((e["caddr"], e["stream"]))
+                r = byord(e)
                 h = hostmap.get(e["host"])
                 if r and h:
                     out.append({"ev": "SendFail", "r": r, "h": h, "why": e["why"]})
             elif ev == "H.prepstore":
-                r = key2r.get((e["caddr"], e["stream"]))
+                r = byord(e)
                 b = local2b.get(e["local"])
                 if r and b:
                     prepmap[(b, e["bstream"])] = r
             elif ev == "H.onclose":
-                r = key2r.get((e["caddr"], e["stream"]))
+                r = byord(e)
                 h = hostmap.get(e["host"])
                 if r and h:
                     out.append({"ev": "OnClose", "r": r, "h": h})
